@@ -10,8 +10,6 @@ numerics of its own (those are in c15_model.py).
   assemble(blocks, junk) -> raw object accepted by to_parameters built from
                       per-parameter blocks (+ arbitrary `junk` in padding)
 """
-import math
-
 import numpy as np
 
 CLASSES = ('dict', 'array', 'padded', 'cc', 'model_input', 'scaler')
@@ -278,9 +276,3 @@ class Adapter:
     return vt.ContinuousAndCategorical(self.schedule.pad_features(cont),
                                        self.schedule.pad_features(cat))
 
-
-def finite(v):
-  try:
-    return math.isfinite(float(v))
-  except (TypeError, ValueError):
-    return False
